@@ -1,10 +1,17 @@
 """Implementation side of C10: drive the real ModelFittingDataTree (and, in `calib` mode, a real tiny
 calibration through ArchipelagoDataTree) and report what it does with the decision vector.
 
-payload = {mode: "direct"|"calib", vars: [{key, model, arg, n, log, bnd}], xs: [[hex, ...], ...], ...}
+payload = {mode: "direct"|"calib", vars: [{key, model, arg, n, log, bnd[, kind]}], xs: [[hex, ...], ...], [via: "yaml"] ...}
   n    : None for values="_", else the number of placeholders
+  kind : the container the n placeholders are handed over in: "list" (default) | "tuple" | "str" ("_" * n) |
+         "ndarray" (numpy array of "_" strings) | "userlist" (collections.UserList) | "gen" (a generator)
+  via  : "yaml" = the ParameterValues objects, the detector and the pipeline come from pyxel.configuration.loads of a
+         YAML text (containers: "_", list, str), else they are built through the Python API
   bnd  : None | ["shared", lo, hi] | ["per", [[lo, hi], ...]]       (floats as hex strings)
-result = {"refused": <class>} | {"lb": [...], "ub": [...], "probes": [ {tag, x, x_after, conv, applied}, ... ]}
+result = {"refused": <class>[, "vals": ...]} | {"lb": [...], "ub": [...], "vals": [[kind, n], ...], "npar": int | None,
+          "probes": [ {tag, x, x_after, conv, applied}, ... ]}
+  vals    : what ParameterValues.values is after construction (kind of the object, number of elements)
+  npar    : the number of parameters the problem counted (champion_x_list.shape[1]); None if it keeps no such count
   applied : None (no evaluation observed) | [[key, "s"|"v"|..., [hex, ...]], ...] in declaration order of
             the variables, then the bystander arguments
 """
@@ -17,6 +24,38 @@ import numpy as np
 GROUPS = ["photon_collection", "charge_generation"]
 BYSTANDER = 7.0
 
+# Every processor the driver builds (and every run of calib2) gets its own TOKEN in the `tag` argument of the probe
+# models ("m0@17"): a pipeline run started lazily by an EARLIER payload or run (the load of /simulated stops at its
+# first error, the other islands' tasks may still be running in dask's threads) is then never mistaken for a run of
+# the current one.
+TOKEN = [0]
+
+
+def new_token():
+    TOKEN[0] += 1
+    return TOKEN[0]
+
+
+def tag_of(m, tok):
+    return f"m{m}@{tok}"
+
+
+def set_token(processor, tok):
+    for m, g in enumerate(GROUPS):
+        getattr(processor.pipeline, g).models[0].arguments["tag"] = tag_of(m, tok)
+
+
+def untag(rec, tok=None):
+    """{"m0@17.p0": ...} -> {"m0.p0": ...}; with tok: only the records of that token (None if it is another's)"""
+    out = {}
+    for k, v in rec.items():
+        head, _, arg = k.partition(".")
+        name, _, t = head.partition("@")
+        if tok is not None and t != str(tok):
+            return None
+        out[f"{name}.{arg}"] = v
+    return out
+
 
 def _f(h):
     return float.fromhex(h)
@@ -26,6 +65,95 @@ def _hx(a):
     return [float(v).hex() for v in np.asarray(a, dtype=float).reshape(-1)]
 
 
+def spec_n(v):
+    """None: the declaration means a scalar parameter ("_", or the one-element array that equals it); else the
+    number of components of the vector parameter"""
+    return None if v["n"] is None or v.get("kind") == "ndarray" else v["n"]
+
+
+def container(v):
+    """The object handed to ParameterValues(values=...)."""
+    import collections
+
+    n, kind = v["n"], v.get("kind", "list")
+    if n is None:
+        return "_"
+    if kind == "list":
+        return ["_"] * n
+    if kind == "tuple":
+        return ("_",) * n
+    if kind == "str":
+        return "_" * n
+    if kind == "ndarray":
+        return np.array(["_"] * n, dtype=str)
+    if kind == "userlist":
+        return collections.UserList(["_"] * n)
+    if kind == "gen":
+        return ("_" for _ in range(n))
+    raise ValueError(f"unknown container kind {kind}")
+
+
+def kind_of(vals):
+    """[kind, number of elements] of what a ParameterValues keeps as .values"""
+    import collections
+
+    if isinstance(vals, str):
+        return ["und", 1] if vals == "_" else (["str", len(vals)] if set(vals) <= {"_"} else ["other", 0])
+    for cls, name in ((list, "list"), (tuple, "tuple"), (collections.UserList, "userlist")):
+        if type(vals) is cls:
+            return [name, len(vals)] if all(isinstance(e, str) and e == "_" for e in vals) else ["other", 0]
+    if isinstance(vals, np.ndarray) and vals.ndim == 1 and all(str(e) == "_" for e in vals):
+        return ["ndarray", int(vals.size)]
+    return ["other", 0]
+
+
+def key_of(v):
+    return f"pipeline.{GROUPS[v['model']]}.cap{v['model']}.arguments.{v['arg']}"
+
+
+def bnd_of(v):
+    b = v["bnd"]
+    if b is None:
+        return None
+    if b[0] == "shared":
+        return (_f(b[1]), _f(b[2]))
+    return [(_f(lo), _f(hi)) for lo, hi in b[1]]
+
+
+def yaml_objects(p):
+    """The same declaration written as a YAML configuration and loaded by pyxel.configuration.loads."""
+    import yaml
+    from pyxel.configuration import loads
+    from pyxel.pipelines import Processor
+
+    tok = new_token()
+    args = [dict(tag=tag_of(0, tok), fixed=BYSTANDER), dict(tag=tag_of(1, tok), fixed=BYSTANDER)]
+    for v in p["vars"]:
+        args[v["model"]][v["arg"]] = 0.0 if spec_n(v) is None else [0.0] * v["n"]
+    params = []
+    for v in p["vars"]:
+        if v.get("kind", "list") not in ("list", "str"):
+            raise ValueError("container cannot be written in YAML")
+        d = dict(key=key_of(v), values=container(v), logarithmic=bool(v["log"]))
+        b = bnd_of(v)
+        if b is not None:
+            d["boundaries"] = list(b) if v["bnd"][0] == "shared" else [list(x) for x in b]
+        params.append(d)
+    target_file()
+    cfg = dict(
+        calibration=dict(result_type="pixel", result_fit_range=[0, 2, 0, 2], target_data_path=["target_c10.npy"],
+                         target_fit_range=[0, 2, 0, 2],
+                         fitness_function=dict(func="pyxel.calibration.fitness.sum_of_abs_residuals"),
+                         algorithm=dict(type="sade", generations=1, population_size=5), parameters=params),
+        ccd_detector=dict(geometry=dict(row=2, col=2, total_thickness=40.0, pixel_vert_size=10.0, pixel_horz_size=10.0),
+                          environment=dict(temperature=200.0), characteristics=dict(full_well_capacity=100000)),
+        pipeline={g: [dict(name=f"cap{m}", func="verif_probes_c10.capture", enabled=True, arguments=args[m])]
+                  for m, g in enumerate(GROUPS)},
+    )
+    conf = loads(yaml.safe_dump(cfg))
+    return list(conf.calibration.parameters), Processor(detector=conf.ccd_detector, pipeline=conf.pipeline)
+
+
 def make_objects(p):
     """-> (variables, processor): the ParameterValues objects and the processor of the caller.
     Raises whatever the implementation raises."""
@@ -33,13 +161,16 @@ def make_objects(p):
     from pyxel.observation import ParameterValues
     from pyxel.pipelines import DetectionPipeline, ModelFunction, Processor
 
+    if p.get("via") == "yaml":
+        return yaml_objects(p)
     args = [dict(fixed=BYSTANDER), dict(fixed=BYSTANDER)]
     for v in p["vars"]:
-        args[v["model"]][v["arg"]] = 0.0 if v["n"] is None else [0.0] * v["n"]
+        args[v["model"]][v["arg"]] = 0.0 if spec_n(v) is None else [0.0] * v["n"]
     kw = {}
+    tok = new_token()
     for m, g in enumerate(GROUPS):
         kw[g] = [ModelFunction(func="verif_probes_c10.capture", name=f"cap{m}",
-                               arguments=dict(tag=f"m{m}", **args[m]))]
+                               arguments=dict(tag=tag_of(m, tok), **args[m]))]
     det = CCD(geometry=CCDGeometry(row=2, col=2, total_thickness=40.0, pixel_vert_size=10.0, pixel_horz_size=10.0),
               environment=Environment(temperature=200.0),
               characteristics=Characteristics(full_well_capacity=100000))
@@ -47,17 +178,8 @@ def make_objects(p):
 
     variables = []
     for v in p["vars"]:
-        b = v["bnd"]
-        if b is None:
-            bnd = None
-        elif b[0] == "shared":
-            bnd = (_f(b[1]), _f(b[2]))
-        else:
-            bnd = [(_f(lo), _f(hi)) for lo, hi in b[1]]
-        values = "_" if v["n"] is None else ["_"] * v["n"]
-        variables.append(ParameterValues(
-            key=f"pipeline.{GROUPS[v['model']]}.cap{v['model']}.arguments.{v['arg']}",
-            values=values, logarithmic=bool(v["log"]), boundaries=bnd))
+        variables.append(ParameterValues(key=key_of(v), values=container(v), logarithmic=bool(v["log"]),
+                                         boundaries=bnd_of(v)))
 
     return variables, processor
 
@@ -109,7 +231,7 @@ def ordered(p, rec):
 def merged(sink):
     rec = {}
     for r in sink:
-        rec.update(r)
+        rec.update(untag(r))
     return rec
 
 
@@ -254,7 +376,9 @@ def final_runs(final):
     """Pipeline runs outside fitness: per thread the records come as (model 0, model 1) of one run."""
     by_thread = {}
     for tid, rec in final or []:
-        by_thread.setdefault(tid, []).append(rec)
+        rec = untag(rec, TOKEN[0])
+        if rec is not None:           # else: a straggler of an earlier payload / run
+            by_thread.setdefault(tid, []).append(rec)
     runs = []
     for recs in by_thread.values():
         cur = {}
@@ -320,7 +444,7 @@ def collect(p, problem, log, dt, final=None, load_err=None):
         for qv in par:
             want, a = [], 0
             for v in p["vars"]:
-                b = 1 if v["n"] is None else v["n"]
+                b = 1 if spec_n(v) is None else v["n"]
                 want.append(_hx(qv[a:a + b]))
                 a += b
             wants.append(want)
@@ -354,13 +478,8 @@ def snapshot(p, variables, processor, problems):
     vs = []
     for v, var in zip(p["vars"], variables):
         expected = f"pipeline.{GROUPS[v['model']]}.cap{v['model']}.arguments.{v['arg']}"
-        vals = var.values
-        if isinstance(vals, str):
-            n = None if vals == "_" else "other"
-        elif isinstance(vals, (list, tuple)) and all(isinstance(e, str) and e == "_" for e in vals):
-            n = len(vals)
-        else:
-            n = "other"
+        kind, cnt = kind_of(var.values)
+        n = None if kind in ("und", "ndarray") and cnt == 1 else (cnt if kind in ("list", "tuple") else "other")
         vs.append(dict(key=v["key"] if var.key == expected else "?" + str(var.key)[:60], n=n,
                        log=var.logarithmic if isinstance(var.logarithmic, bool) else "other",
                        bnd=enc_bnd(var.boundaries)))
@@ -385,6 +504,8 @@ def hist(p):
     problems, steps = [], []
     for op in p["ops"]:
         kind = op[0]
+        if kind != "build" and op[1] >= len(problems):
+            continue              # the problem it names was refused: nothing to call
         st = dict(op=kind)
         if kind == "build":
             try:
@@ -497,6 +618,7 @@ def calib2(p):
                 calibration.pygmo_seed = int(r.get("seed", 1))
             del log[:]
             n_before = len(built)
+            set_token(processor, new_token())
             st = dict(op="build")
             dt, err, load_err = None, None, None
             pr.GLOBAL = []
@@ -545,11 +667,22 @@ def handle(p):
             import traceback
             return {"calib_error": f"{type(ex).__name__}: {str(ex)[:300]}", "tb": traceback.format_exc()[-1500:]}
     try:
-        problem, processor = build(p)
+        variables, processor = make_objects(p)
     except Exception as ex:  # noqa: BLE001
-        return {"refused": type(ex).__name__, "msg": str(ex)[:200]}
+        return {"refused": type(ex).__name__, "msg": str(ex)[:200], "stage": "objects"}
+    vals = [kind_of(var.values) for var in variables]
+    try:
+        problem = make_problem(p, variables, processor)
+    except Exception as ex:  # noqa: BLE001
+        return {"refused": type(ex).__name__, "msg": str(ex)[:200], "stage": "problem", "vals": vals}
     lb, ub = problem.get_bounds()
-    res = {"lb": _hx(lb), "ub": _hx(ub)}
+    res = {"lb": _hx(lb), "ub": _hx(ub), "vals": vals, "npar": None}
+    try:
+        shape = np.shape(problem.champion_x_list)
+        if len(shape) == 2:
+            res["npar"] = int(shape[1])
+    except Exception:  # noqa: BLE001  (the count is not a public promise: absent = not observed)
+        pass
     if p.get("mode", "direct") == "calib":
         try:
             res["probes"] = calib(p, problem, processor)
